@@ -395,6 +395,7 @@ package bloomsearch
 // least one of the two always happens (no default case).
 //@ func (*BloomSearchEngine).triggerFlush
 //@ props C05 C07 C09
+//@ ensures [C07] ghost.nilRounds == old(ghost.nilRounds)     // no nil answer round on the ingest side
 //@ requires b != nil
 //@ entry ghost.flushTriggers = ghost.flushTriggers + 1
 //@ modifies ghost.flushTriggers, $answers
@@ -410,7 +411,9 @@ package bloomsearch
 // waiters, and the actor's state is empty afterwards — nothing dropped, nothing
 // kept.
 //@ func (*BloomSearchEngine).flushBufferedData
-//@ props C05 C07 C10
+//@ props C05 C07 C09 C10
+//@ ensures [C07] ghost.nilRounds == old(ghost.nilRounds)     // no nil answer round on the ingest side
+//@ ensures [C09] ghost.gos == old(ghost.gos)     // the enqueue is inline: the actor blocks on the flush queue itself
 //@ requires [C10] injective(partitionBuffers) && forall k1 str :: has(partitionBuffers, k1) ==> ref(get(partitionBuffers, k1)) >= $alloc
 //@ pred submap(m map[string]*partitionBuffer) = forall k1 str :: has(m, k1) ==> old(has(m, k1)) && get(m, k1) == old(get(m, k1))
 //@ loop 0 invariant [C10] submap(partitionBuffers)
@@ -446,6 +449,7 @@ package bloomsearch
 // this call's own appends (append-shared: no in-place write into req.rows)
 //@ loop 0 invariant forall key str :: arr(partitionedRows[key]) == 0 || arr(partitionedRows[key]) < old($alloc)
 //@ props C05 C07 C06
+//@ ensures [C07] ghost.nilRounds == old(ghost.nilRounds)     // no nil answer round on the ingest side
 // C06 batch atomicity: every row is serialized and size-checked before anything
 // is buffered, so when a batch is rejected for an unmarshalable or oversize row
 // the buffered counters and the set of partition buffers are exactly as before.
@@ -461,6 +465,7 @@ package bloomsearch
 // actor really holds.
 //@ pred stagesOK(m map[string]*partitionBuffer) = forall k1 str :: has(m, k1) ==> get(m, k1) != nil && get(m, k1).compressionEncoders != nil && !storeWriter(get(m, k1).compressionEncoders.writer)
 //@ requires [C09] stagesOK(partitionBuffers) && bufferedRowCount != bufferedBytes     // the two counters are different variables
+//@ ensures [C09] ghost.gos == old(ghost.gos)     // buffering and the flush decision start no goroutine
 //@ loop 5 invariant [C09] stagesOK(partitionBuffers) && forall key str :: has(partitionedRows, key) ==> has(partitionBuffers, key)
 //@ loop 6 invariant [C09] stagesOK(partitionBuffers) && forall key str :: has(partitionedRows, key) ==> has(partitionBuffers, key)
 //@ loop 7 invariant [C09] stagesOK(partitionBuffers) && forall key str :: has(partitionedRows, key) ==> has(partitionBuffers, key)
@@ -566,9 +571,15 @@ package bloomsearch
 //@ extern (*time.Ticker).Stop
 //@ modifies nothing
 //@ func (*BloomSearchEngine).ingestWorker
-//@ props C05 C08 C10
+//@ props C05 C07 C08 C10
 //@ requires b != nil
 //@ modifies all
+// C07: the ingest actor never runs a nil answer round itself — in the steady state and
+// in the shutdown drain alike every retained waiter (Flush callers included) is
+// answered by the flush worker, behind everything queued before it.
+//@ loop 0 invariant [C07] ghost.nilRounds == old(ghost.nilRounds)
+//@ loop 1 invariant [C07] ghost.nilRounds == old(ghost.nilRounds)
+//@ ensures [C07] ghost.nilRounds == old(ghost.nilRounds)
 //@ loop 0 invariant [C10] ghost.tickerResets == old(ghost.tickerResets) && ghost.tickersMade == old(ghost.tickersMade) + 1
 //@ loop 0 invariant [C10] injective(partitionBuffers) && forall k1 str :: has(partitionBuffers, k1) ==> ref(get(partitionBuffers, k1)) >= $alloc
 //@ loop 1 invariant [C10] injective(partitionBuffers) && forall k1 str :: has(partitionBuffers, k1) ==> ref(get(partitionBuffers, k1)) >= $alloc
@@ -1806,6 +1817,7 @@ package bloomsearch
 // buildFilters builds new filters from the receiver's sets; it writes no entry
 // set (frame by the types of the locations it can store to) and records whose
 // sets the filters were built from.
+//@ specfun binset(f bloom.BloomFilter, s str) bool
 //@ ghostvar lastBuiltFrom int   // identity of the entry sets the last buildFilters call was made on
 //@ func (*bloomEntrySets).buildFilters
 //@ props C18
@@ -1813,6 +1825,11 @@ package bloomsearch
 //@ entry ghost.lastBuiltFrom = ref(s)
 //@ modifies heaps, ghost.lastBuiltFrom
 //@ ensures ghost.lastBuiltFrom == ref(s)
+// ... and each of the three filters holds every entry of its own set (binset, see
+// buildSizedBloomFilter at the end of this file)
+//@ ensures [C18,C01] result.FieldBloomFilter != nil && forall e str :: has(s.fields, e) ==> binset(*result.FieldBloomFilter, e)
+//@ ensures [C18,C01] result.TokenBloomFilter != nil && forall e str :: has(s.tokens, e) ==> binset(*result.TokenBloomFilter, e)
+//@ ensures [C18,C01] result.FieldTokenBloomFilter != nil && forall e str :: has(s.fieldTokens, e) ==> binset(*result.FieldTokenBloomFilter, e)
 
 // unionInto: afterwards dst holds every entry of s and everything it held
 // before, and nothing else — the file-level sets are exactly the union of the
@@ -2408,6 +2425,14 @@ package bloomsearch
 //@ props C12
 //@ requires b != nil
 //@ modifies heaps
+// C12 (MaxFileSize is about bytes on disk): the size statistic the file grouping
+// relies on is the sum, over the file's blocks, of row data PLUS filter section
+// (fold over any number of blocks) — stated for block lists none of whose prefix
+// totals leaves the int range (the Go additions are then exact).
+//@ pred diskOf(bs []DataBlockMetadata) = sum blk in bs :: (blk.RowDataSize + blk.BloomFilterSize)
+//@ pred fitsInt(bs []DataBlockMetadata) = forall k :: 0 <= k && k <= len(bs) ==> MinInt64 <= diskOf(bs[:k]) && diskOf(bs[:k]) <= MaxInt64
+//@ loop 0 invariant [C12] -1 <= $index && $index < len(metadata.DataBlocks) && (fitsInt(metadata.DataBlocks) ==> stats.totalSize == diskOf(metadata.DataBlocks[:$index + 1]))
+//@ ensures [C12] fitsInt(metadata.DataBlocks) ==> result.totalSize == diskOf(metadata.DataBlocks)
 
 // hasMergeableBlockPair only reads.
 //@ func (*BloomSearchEngine).hasMergeableBlockPair
@@ -2709,3 +2734,58 @@ package bloomsearch
 //@ modifies heap(byte), ghost.lastRune, ghost.lastRuneSize
 //@ loop 0 invariant 0 <= i
 //@ at call utf8.AppendRune#1 assert [C01] $arg1 == ulow(ghost.lastRune)
+
+// Filter construction (C18 / C01 L3): every entry of an entry set is inserted
+// into the filter built from it — the loop runs over the whole set (`$visited`
+// reaches every key), whatever its size, and the three filters of a block / file
+// are built from the three sets, each from its own. binset(v, s): the abstract
+// content of a filter value (what AddString adds to and never removes from;
+// the bit-level representation and "TestString after AddString is true" are the
+// library's).
+//@ extern bloom.NewWithEstimates
+//@ modifies nothing
+//@ ensures result != nil && ref(result) < old($alloc)
+//@ extern (*bloom.BloomFilter).AddString
+//@ modifies *f
+//@ ensures binset(*f, data) && forall s str :: old(binset(*f, s)) ==> binset(*f, s)
+//@ func buildSizedBloomFilter
+//@ props C18 C01
+//@ modifies nothing
+//@ loop 0 invariant filter != nil && ref(filter) < old($alloc) && forall s str :: $visited[s] ==> binset(*filter, s)
+//@ loop 0 invariant cellsframe(filter)
+//@ ensures result != nil && forall s str :: has(entries, s) ==> binset(*result, s)
+
+// JSON round trip (C25): what contracts can pin down is the assumption the paper
+// argument rests on — every type an expression tree or a Query is made of is
+// encoded by encoding/json's default, field-by-field rules: none of them declares
+// its own JSON or text codec (a case-folding UnmarshalText on the operator type
+// would turn an unknown operator into a known one on the way back). Decided from
+// the type information on every run; the behaviour of encoding/json itself is
+// the library's.
+//@ plaincodec [C25] QueryOperator StringCondition NumericCondition PrefilterConditionType PrefilterCondition PrefilterExpressionType PrefilterExpression QueryPrefilter BloomConditionType BloomCondition BloomExpressionType BloomExpression BloomQuery RegexCondition RegexExpressionType RegexExpression RegexQuery Query
+
+// emitKeyPrefixPaths (C01 L2, the delimiter-split key prefixes as field-existence
+// paths): every delimiter found in the key gives one emission, except a prefix
+// whose path would be empty — which can only be the first one of a top-level key
+// (no parent path) that starts with the delimiter. Counted with two event
+// counters: delimiter searches (one per loop iteration) and emit calls. Under a
+// non-empty parent path the two advance together; with no parent path at most
+// one emission is skipped, and only in the first iteration.
+//@ ghostvar kpEmits int    // emit calls made by emitKeyPrefixPaths
+//@ ghostvar kpSplits int   // delimiter searches made by it
+//@ extern strings.Index
+//@ pure
+//@ ensures -1 <= result && (result >= 0 ==> result + len(substr) <= len(s))
+//@ func (*pathWalker).emitKeyPrefixPaths
+//@ appends w.buf
+//@ props C01
+//@ requires w != nil
+//@ requires [C01] delimiter == "" || len(delimiter) > 0     // only the empty string has length 0 (a fact about strings the Str sort does not carry)
+//@ modifies all
+//@ at call strings.Index#1 bump kpSplits
+//@ at call dynamic#1 bump kpEmits
+//@ pred kpOK(e int, s int, parentLen int) = e == s || (e == s - 1 && parentLen == 0)
+//@ loop 0 invariant [C01] 0 <= splitAt && splitAt <= len(key) && 0 <= parentLen && parentLen <= cap(w.buf) && len(delimiter) > 0
+//@ loop 0 invariant [C01] ghost.kpSplits - old(ghost.kpSplits) >= 0 && (ghost.kpSplits == old(ghost.kpSplits) ==> ghost.kpEmits == old(ghost.kpEmits)) && (ghost.kpSplits > old(ghost.kpSplits) ==> splitAt > 0)
+//@ loop 0 invariant [C01] kpOK(ghost.kpEmits - old(ghost.kpEmits), ghost.kpSplits - old(ghost.kpSplits), parentLen)
+//@ ensures [C01] result && ghost.kpSplits > old(ghost.kpSplits) ==> kpOK(ghost.kpEmits - old(ghost.kpEmits), ghost.kpSplits - old(ghost.kpSplits) - 1, old(len(w.buf)))
